@@ -157,6 +157,11 @@ func init() {
 			return c
 		},
 		"vnow": func(x *X, fn *ssa.Function, a []Value) Value { return x.clock() },
+		"vand":       func(x *X, fn *ssa.Function, a []Value) Value { return x.B.And(a[0].(*T), a[1].(*T)) },
+		"vor":        func(x *X, fn *ssa.Function, a []Value) Value { return x.B.Or(a[0].(*T), a[1].(*T)) },
+		"vimplies":   func(x *X, fn *ssa.Function, a []Value) Value { return x.B.Implies(a[0].(*T), a[1].(*T)) },
+		"vcutActive": func(x *X, fn *ssa.Function, a []Value) Value { return x.B.Bool(len(x.Cfg.Cuts) > 0) },
+		"vrandPush": func(x *X, fn *ssa.Function, a []Value) Value { x.ghostAppend("randq", a[0]); return nil },
 		"vparam": func(x *X, fn *ssa.Function, a []Value) Value {
 			if v, ok := x.Params[x.strArg(a[0])]; ok {
 				return x.c64(uint64(int64(v)))
@@ -313,7 +318,13 @@ func init() {
 
 		"math/rand.Int31n": func(x *X, fn *ssa.Function, a []Value) Value {
 			n := a[0].(*T)
-			v := x.input(x.inputName("rand.Int31n"), 32)
+			var v *T
+			if q, _ := x.ghost["randq"].([]Value); len(q) > 0 {
+				v = q[0].(*T)
+				x.ghost["randq"] = q[1:]
+			} else {
+				v = x.input(x.inputName("rand.Int31n"), 32)
+			}
 			if !x.branch(x.B.SLT(x.B.Const(0, 32), n)) {
 				x.gopanic("invalid argument to Int31n")
 			}
@@ -616,10 +627,12 @@ func (x *X) assert(c *T, msg, knownID string, sig *T) {
 // harness function whose parameters are named after loop variables (phi comments); it is
 // called with the havocked values and must return bool.
 type CutSpec struct {
-	Func  string
-	Var   string
-	Inv   string
-	Pkg   string
+	Func string `json:"func"` // SSA function name, e.g. (*pkgpath.T).Method
+	Var  string `json:"var"`  // a loop-carried source variable (identifies the loop header)
+	Inv  string `json:"inv"`  // harness function: invariant over loop variables (parameters named like them)
+	Step string `json:"step"` // optional harness function over (v, v_next) pairs, asserted on the back edge
+	Pkg  string `json:"pkg"`  // import path of the package holding Inv/Step
+	Mode string `json:"mode"` // "" = inductive (base + step); "havoc" = arbitrary iteration satisfying Inv (no base case)
 }
 
 func (x *X) atCut(fr *frame, blk, prev *ssa.BasicBlock) (*ssa.BasicBlock, bool) {
@@ -651,9 +664,21 @@ func (x *X) atCut(fr *frame, blk, prev *ssa.BasicBlock) (*ssa.BasicBlock, bool) 
 	}
 	key := fmt.Sprintf("%p:%d", fr, blk.Index)
 	x.cutSeen[key]++
-	inv := x.E.Pkgs[spec.Pkg].Func(spec.Inv)
+	hp := x.E.Pkgs[ModulePath+"/"+spec.Pkg]
+	if hp == nil {
+		x.unsupported("cut: package not loaded: " + spec.Pkg)
+	}
+	inv := hp.Func(spec.Inv)
 	if inv == nil {
 		x.unsupported("cut invariant function not found: " + spec.Inv)
+	}
+	phiOf := func(name string) *ssa.Phi {
+		for _, ins := range blk.Instrs {
+			if phi, ok := ins.(*ssa.Phi); ok && phi.Comment == name {
+				return phi
+			}
+		}
+		return nil
 	}
 	callInv := func() *T {
 		var args []Value
@@ -692,7 +717,9 @@ func (x *X) atCut(fr *frame, blk, prev *ssa.BasicBlock) (*ssa.BasicBlock, bool) 
 				}
 			}
 		}
-		x.assert(callInv(), "loop invariant holds on entry ("+spec.Inv+")", "", nil)
+		if spec.Mode != "havoc" {
+			x.assert(callInv(), "loop invariant holds on entry ("+spec.Inv+")", "", nil)
+		}
 		// havoc phis (loop-carried state); memory written in the loop must be scalars carried in phis
 		for _, ins := range blk.Instrs {
 			phi, ok := ins.(*ssa.Phi)
@@ -707,6 +734,12 @@ func (x *X) atCut(fr *frame, blk, prev *ssa.BasicBlock) (*ssa.BasicBlock, bool) 
 				fr.env[phi] = x.input(x.inputName("cut."+phi.Comment), 0)
 			default:
 				x.unsupported("cut: loop-carried value of type " + phi.Type().String())
+			}
+		}
+		x.cutOld = map[string]Value{}
+		for _, ins := range blk.Instrs {
+			if phi, ok := ins.(*ssa.Phi); ok {
+				x.cutOld[phi.Comment] = fr.env[phi]
 			}
 		}
 		c := callInv()
@@ -730,7 +763,33 @@ func (x *X) atCut(fr *frame, blk, prev *ssa.BasicBlock) (*ssa.BasicBlock, bool) 
 			}
 		}
 	}
-	x.assert(callInv(), "loop invariant preserved ("+spec.Inv+")", "", nil)
+	if spec.Mode != "havoc" {
+		x.assert(callInv(), "loop invariant preserved ("+spec.Inv+")", "", nil)
+	}
+	if spec.Step != "" {
+		stepFn := hp.Func(spec.Step)
+		if stepFn == nil {
+			x.unsupported("cut step function not found: " + spec.Step)
+		}
+		var args []Value
+		for _, p := range stepFn.Params {
+			nm := p.Name()
+			if strings.HasSuffix(nm, "_next") {
+				phi := phiOf(strings.TrimSuffix(nm, "_next"))
+				if phi == nil {
+					x.unsupported("cut step parameter " + nm + " matches no loop variable")
+				}
+				args = append(args, fr.env[phi])
+			} else {
+				v, ok := x.cutOld[nm]
+				if !ok {
+					x.unsupported("cut step parameter " + nm + " matches no loop variable")
+				}
+				args = append(args, v)
+			}
+		}
+		x.assert(x.call(stepFn, args, nil).(*T), "loop step relation ("+spec.Step+")", "", nil)
+	}
 	x.St.Reached["cut:"+spec.Inv+":step"] = true
 	panic(pathEnd{"cut", "inductive step closed"})
 }
